@@ -295,6 +295,13 @@ def gen_response(rng, big=False, exotic=False):
         k = rng.choice([0, len(fields)])
         fields[k:k] = pad
     expect_status = status
+    linesep = False
+    if rng.random() < 0.03 and not exotic:
+        # a str.splitlines() separator inside an earlier field value, followed by text that looks like a
+        # Content-Type field: on the wire (LF-delimited lines) this is ONE X-Note field  (known finding)
+        sep = bytes([rng.choice([0x85, 0x0c, 0x0b, 0x1c, 0x1d, 0x1e])])
+        fields.insert(0, b'X-Note: a' + sep + b'Content-Type: evil/x')
+        linesep = True
     if exotic and fields:
         # str.splitlines() separators / str.strip() whitespace inside header lines: no expectation
         i = rng.randrange(len(fields))
@@ -323,7 +330,7 @@ def gen_response(rng, big=False, exotic=False):
         body = bytes(rng.randrange(256) for _ in range(rng.choice([4095, 4096, 4097, 9000, 20000])))
     else:
         body = b'HTTP/1.1 200 OK\r\nContent-Type: inner/type\r\n\r\ninner'
-    return {'header': header, 'body': body, 'status': expect_status, 'mime': expect_mime}
+    return {'header': header, 'body': body, 'status': expect_status, 'mime': expect_mime, 'linesep': linesep}
 
 
 def gen_http_session(rng, k, cfg, big=False, exotic=False):
@@ -354,7 +361,7 @@ def gen_http_session(rng, k, cfg, big=False, exotic=False):
     if cfg['revisit'] and rng.random() < 0.4:
         revisit = '<urn:uuid:%s>' % uuid_mod.UUID(int=rng.getrandbits(128))
     ops.append({'op': 'ep', 'k': k, 'body': body, 'cuts': cuts, 'revisit': revisit,
-                'status': resp['status'], 'mime': resp['mime']})
+                'status': resp['status'], 'mime': resp['mime'], 'linesep': resp['linesep']})
     ops.append({'op': 'cs', 'k': k})
     return ops
 
@@ -586,7 +593,7 @@ def run_real_life(directory, run, seed):
                 block = s['header'] + op['body']
                 meta[s['resp_id']] = {'kind': 'response', 'full': block, 'hdrlen': len(s['header']),
                                       'revisit': op['revisit'] if table is not None else None,
-                                      'status': op.get('status'), 'mime': op.get('mime')}
+                                      'status': op.get('status'), 'mime': op.get('mime'), 'linesep': op.get('linesep', False)}
                 model_ops.append(['ep', k, block, (op['revisit'] if table is not None else None)])
             elif o == 'cs':
                 slots[k]['sess'].close()
@@ -1009,7 +1016,11 @@ def oracle_c07(obs, by_file, directory_files, expectations):
             pass
         exp = expectations.get(u.decode('latin-1'))
         if exp is not None:
-            st, mime = exp
+            st, mime, linesep = exp
+            if linesep and mime is not None and m != mime.encode():
+                fails.append(('cdx-mime-linesep', 'NameValueRecord.parse',
+                              '%s: MIME column %r, the server sent %r (a field value holds a str.splitlines separator)' % (where, m, mime)))
+                mime = None
             if st is not None and s != str(st).encode():
                 fails.append(('cdx-status', 'get_http_header', '%s: status column %r, the server sent %d' % (where, s, st)))
             if mime is not None and m != mime.encode():
@@ -1054,7 +1065,7 @@ def run_scenario(scn, seed='s'):
             out.c05 += fails
             for uid, m in obs['meta'].items():
                 if m['kind'] == 'response':
-                    expectations['<urn:uuid:%s>' % uid] = (m.get('status'), m.get('mime'))
+                    expectations['<urn:uuid:%s>' % uid] = (m.get('status'), m.get('mime'), m.get('linesep', False))
             out.c07 += oracle_c07(obs, by_file, obs['after'], expectations)
             out.requests.append(model_request(obs, by_file))
             out.lives.append((obs, by_file, real_canonical(obs, by_file)))
@@ -1083,6 +1094,8 @@ def run_scenario(scn, seed='s'):
                         out.tags.append('mime:none')
                     elif '+' in m['mime'] or '.' in m['mime']:
                         out.tags.append('mime:plus-dot')
+                    if m.get('linesep'):
+                        out.tags.append('hdr:linesep-injection')
     except Infra:
         raise
     finally:
